@@ -575,6 +575,19 @@ def operand_for(draw, alt, isa_env, place, simple=False):
             op['off'] = value_ast(draw, abs(v), consts, simple=True)
             if op['off'][0] != 'num' and op['off'][0] != 'lab':
                 op['off'] = ['par', op['off']]
+            m = abs(v)
+            if m < (1 << 20) and draw(st.integers(0, 4)) == 0:
+                # a product, quotient or remainder without parentheses: it binds tighter than the sign in front of it
+                q = draw(st.integers(m + 1, m + 9))
+                form = draw(st.sampled_from(['%', '%', '/', '*']))
+                if form == '%':
+                    op['off'] = ['bin', '%', ['num', m + q * draw(st.integers(0, 3)), 'dec'], ['num', q, 'dec']]
+                elif form == '/':
+                    d = draw(st.integers(1, 7))
+                    op['off'] = ['bin', '/', ['num', m * d + draw(st.integers(0, d - 1)), 'dec'], ['num', d, 'dec']]
+                else:
+                    f = draw(st.sampled_from([d for d in (1, 2, 3, 5, 7) if m % d == 0]))
+                    op['off'] = ['bin', '*', ['num', m // f, 'dec'], ['num', f, 'dec']]
         return op
     if kind in ('indexed_register', 'indirect_indexed_register'):
         iid = draw(st.sampled_from(sorted(alt['index_operands'])))
